@@ -449,6 +449,18 @@ func normalizespaceFunc(arg1 query) func(query, iterator) interface{} {
 	}
 }
 
+// roundHalfUp rounds to the nearest integer as the XPath round() function
+// does: a tie goes towards positive infinity, so -0.5 rounds to 0 and -1.5
+// to -1 (math.Round rounds ties away from zero). NaN and infinities are
+// returned as they are.
+func roundHalfUp(f float64) float64 {
+	fl := math.Floor(f)
+	if f-fl >= 0.5 {
+		return fl + 1
+	}
+	return fl
+}
+
 // substringFunc is XPath functions substring function returns a part of a given string.
 func substringFunc(arg1, arg2, arg3 query) func(query, iterator) interface{} {
 	return func(_ query, t iterator) interface{} {
@@ -470,7 +482,7 @@ func substringFunc(arg1, arg2, arg3 query) func(query, iterator) interface{} {
 			panic(errors.New("substring() function first argument type must be number"))
 		}
 		// fix https://github.com/antchfx/xpath/issues/109
-		start = math.Round(start)
+		start = roundHalfUp(start)
 		if math.IsNaN(start) || start > float64(len(m)) {
 			return ""
 		}
@@ -484,7 +496,7 @@ func substringFunc(arg1, arg2, arg3 query) func(query, iterator) interface{} {
 		if length, ok = functionArgs(arg3).Evaluate(t).(float64); !ok {
 			panic(errors.New("substring() function second argument type must be number"))
 		}
-		length = math.Round(length)
+		length = roundHalfUp(length)
 		// The result is the characters at the positions p (counted from 1)
 		// with start <= p < start+length, clipped to the string.
 		first, last := start, start+length
